@@ -509,6 +509,17 @@ def shard(args):
             # a top-level command with many children
             nested.insert(len(nested) - 1, ['get-value'] +
                           [['+', str(j), '1'] for j in range(9)])
+        if r.random() < 0.4:
+            # header-like commands late in the script, as incremental
+            # benchmarks have them ((set-info :status ..) before each
+            # check-sat): declarations belong after the *leading* ones
+            for _ in range(r.randint(1, 2)):
+                nested.insert(r.randint(max(1, len(nested) - 3),
+                                        len(nested)),
+                              r.choice([['set-info', ':status', 'sat'],
+                                        ['set-logic', 'ALL'],
+                                        ['set-info', ':source', '|x y|']]))
+            res.count('scripts_with_late_header_commands')
         explore(ns, res, r, nested, f'{args["shard"]}:{i}', args['rounds'])
         res.count('scripts')
         res.add_distinct(common.digest(refreader.render(nested)))
